@@ -45,6 +45,30 @@ def same_day_pair(draw):
     k = o - rd.EPOCH_ORD
     n = draw(st.sampled_from([k, k + 1, k + 0.5, k + 0.25, k - 1, float(k)]))
     return (d, n) if draw(st.booleans()) else (n, d)
+
+
+@st.composite
+def near_pair(draw):
+    """two values that are different but very close, or equal across int/float: neighbouring doubles, integers beyond 2^53 and their neighbours, date-times seconds or milliseconds apart"""
+    import math
+    k = draw(st.integers(0, 3))
+    if k == 0:
+        x = draw(st.one_of(st.floats(-1e6, 1e6, allow_nan=False), st.sampled_from([0.3, 0.1 + 0.2, 1.0, 1e15, 43789.25, 0.1, 100.0, 1e-7, 2.0 ** 52])))
+        y = x
+        for _ in range(draw(st.integers(1, 4))):
+            y = math.nextafter(y, draw(st.sampled_from([math.inf, -math.inf])))
+        a, b = x, y
+    elif k == 1:
+        n = draw(st.sampled_from([2 ** 53, 2 ** 53 + 1, 2 ** 54 + 2, 10 ** 17 + 1, 2 ** 63, 2 ** 64 + 1, 3 ** 40, -(2 ** 53) - 1])) + draw(st.integers(-3, 3))
+        a, b = n, draw(st.sampled_from([n, n + 1, n - 1, n + 2, float(n), float(n + 1)]))
+    else:
+        o = draw(st.integers(rd.MAR1_ORD, rd.LAST_ORD - 1))
+        ms = draw(st.integers(0, 86000000))
+        delta = draw(st.sampled_from([1, 2, 1000, 2000, 3000, 60000, 200000, 0]))
+        a, b = _dt((o, ms)), _dt((o, ms + delta))
+    return (a, b) if draw(st.booleans()) else (b, a)
+
+
 nonblank = st.one_of(numbers, numbers, dates, dates, early_dates, texts, texts, texts, st.booleans())
 
 
@@ -159,6 +183,8 @@ def check_triple(case):
 def pair_classes(c):
     a, b = cls(c['a']), cls(c['b'])
     out = ['%s-%s' % tuple(sorted([a, b])), 'how:' + c['how']]
+    if c.get('near'):
+        out.append('near-pair')
     return out
 
 
@@ -188,9 +214,10 @@ PAIRS = ['date-date', 'date-logical', 'date-number', 'date-text', 'logical-logic
 
 LAWS = [
     Law('pairs', check_pair, strategy=st.one_of(st.fixed_dictionaries({'a': scalar, 'b': scalar, 'how': how_s}), st.fixed_dictionaries({'a': scalar, 'b': scalar, 'how': how_s}),
-                                                st.tuples(same_day_pair(), how_s).map(lambda t: {'a': t[0][0], 'b': t[0][1], 'how': t[1]})), key=pair_key, classes=pair_classes, nontrivial=nontrivial_pair,
-        required=tuple(PAIRS) + ('how:lit', 'how:cell'), quick=6000, thorough=300000, shards=(8, 16),
-        rule='ordered pairs of scalars; one formula evaluates the six operators both ways round: trichotomy, derived operators, converse, and direction against the reference order (number|date by value/serial < text < logical, blank as 0 / "" / FALSE); '
+                                                st.tuples(same_day_pair(), how_s).map(lambda t: {'a': t[0][0], 'b': t[0][1], 'how': t[1]}),
+                                                st.tuples(near_pair(), how_s).map(lambda t: {'a': t[0][0], 'b': t[0][1], 'how': t[1], 'near': True})), key=pair_key, classes=pair_classes, nontrivial=nontrivial_pair,
+        required=tuple(PAIRS) + ('how:lit', 'how:cell', 'near-pair'), quick=6000, thorough=300000, shards=(8, 16),
+        rule='ordered pairs of scalars (a quarter of them a date-time with a number of the same day, or two values that differ by 1-4 ulps, integers beyond 2^53 with their neighbours and float twins, date-times 1 ms - 200 s apart); one formula evaluates the six operators both ways round: trichotomy, derived operators, converse, and direction against the reference order (number|date by value/serial < text < logical, blank as 0 / "" / FALSE); '
              'non-trivial = operands of different classes, or unequal same-class operands that are not both small positive integers'),
     Law('blank', check_blank, strategy=st.fixed_dictionaries({'y': scalar, 'how': how_s}), quick=1500, thorough=60000, shards=(4, 8),
         classes=lambda c: (cls(c['y']),), required=('number', 'text', 'logical', 'date', 'blank'),
